@@ -124,10 +124,52 @@ OPEN = {
 }
 
 
+# ---------------------------------------------------------------------------------------------------
+# nested sequences of the OTHER kinds (law "seqkinds"). A FillComputeSeq offers fill and compute and is
+# therefore ONE fill/compute element of the Sequence that holds it: its stream transformation is the one
+# of the standalone object (fill the whole flow into it, then compute) - whatever its parts would do
+# one by one. Pre-elements of every kind: plain callable, Filter / Slice (run and fill_into), an
+# accumulator cast to FillInto as the FillComputeSeq docstring advises, an accumulator left as it is
+# (Count: fill_into, fill and compute), a user object behind FillInto with a renamed method; with and
+# without elements after the FillCompute element; a FillComputeSeq inside a FillComputeSeq.
+
+def _fcs(*args):
+    return lena.core.FillComputeSeq(*args)
+
+
+NESTED = {
+    "FillComputeSeq(Sum)": lambda: _fcs(lena.math.Sum()),
+    "FillComputeSeq(inc,Sum)": lambda: _fcs(cm.inc, lena.math.Sum()),
+    "FillComputeSeq(Sum,inc)": lambda: _fcs(lena.math.Sum(), cm.inc),
+    "FillComputeSeq(FillInto(Count),StoreFilled)":
+        lambda: _fcs(lena.core.FillInto(lena.flow.Count()), lena.flow.StoreFilled()),
+    "FillComputeSeq(FillInto(Count),Sum,inc)":
+        lambda: _fcs(lena.core.FillInto(lena.flow.Count()), lena.math.Sum(), cm.inc),
+    "FillComputeSeq(Count,Sum)": lambda: _fcs(lena.flow.Count(), lena.math.Sum()),
+    "FillComputeSeq(FillInto(obj,fill_into=into),Sum,inc)":
+        lambda: _fcs(lena.core.FillInto(_IntoOther(), fill_into="into"), lena.math.Sum(), cm.inc),
+    "FillComputeSeq(Filter(even),Slice(1,3),Sum)":
+        lambda: _fcs(lena.flow.Filter(cm.even), lena.flow.Slice(1, 3), lena.math.Sum()),
+    "FillComputeSeq(FillComputeSeq(inc,Sum),inc)":
+        lambda: _fcs(_fcs(cm.inc, lena.math.Sum()), cm.inc),
+}
+NESTED_ORDER = sorted(NESTED)
+
+# a FillSeq offers fill only (no run, not callable, no compute): it is not an element of a Sequence
+REJECTED_SEQS = {
+    "FillSeq(Sum)": lambda: lena.core.FillSeq(lena.math.Sum()),
+    "FillSeq(inc,StoreFilled)": lambda: lena.core.FillSeq(cm.inc, lena.flow.StoreFilled()),
+    "FillSeq(FillInto(Count),Sum)":
+        lambda: lena.core.FillSeq(lena.core.FillInto(lena.flow.Count()), lena.math.Sum()),
+}
+
+
 def build(spec):
     """A fresh element for *spec*: an accepted adapter object or anything of the common vocabulary."""
     if spec in ACCEPTED:
         return ACCEPTED[spec]()
+    if spec in NESTED:
+        return NESTED[spec]()
     return cm.build(spec)
 
 
